@@ -28,9 +28,13 @@ def cases(tier, r):
         shapes = [(1, 1), (1, 5), (4, 1), (2, 3), (3, 2), (3, 3), (8, 12), (16, 24), (5, 7)] + [(r.randint(1, 16), r.randint(1, 24)) for _ in range(4)]
     else:
         shapes = [(R, C) for R in range(1, 17) for C in range(1, 25)]
+    # plates with 100 and more columns: well IDs get a third digit (their text order is not their plate order any more)
+    shapes = list(shapes) + [(2, 104), (1, 120), (3, 101)]
     for sh in shapes:
         R, C = sh
         for arg, present in _arg_variants(r, sh, q):
+            if C > 26:
+                break  # the rotated plate would need more than 26 row letters
             ps.append({"x": "rot", "shape": list(sh), "wells": arg, "present": present})
         seeds = [0, 1, r.randint(2, 10**6)] if q else [0, 1, 2, 3, r.randint(4, 10**6), r.randint(4, 10**6)]
         for seed in seeds:
